@@ -338,7 +338,9 @@ class CSSImportRule(cssrule.CSSRule):
                     cssText, encodingOverride=encodingOverride, encoding=encoding
                 )
 
-            except (OSError, ValueError) as e:
+            except (OSError, ValueError, xml.dom.DOMException) as e:
+                # (DOMException: the imported sheet has an error and the log
+                # raises: not loaded, like any other sheet that cannot be read)
                 self._log.warn(
                     'CSSImportRule: While processing imported '
                     'style sheet href=%s: %r' % (self.href, e),
